@@ -16,8 +16,8 @@ RULE = (
     "{0,1,2,inf}, per-rank limit in {1,2}); for each drawn real pmapping template the repo's make_pmappings_from_templates is "
     "run twice: as is (pruned enumeration, prune threshold drawn from {1,8,64,1000}) and with get_tile_shape_choices replaced "
     "by an exhaustive enumerator of all perfectly factorising assignments filtered by the validity limits (harness-side, "
-    "vf/instrument.py). The sets of (compatibility, fused-loop tile shapes, objective and reservation vector) after the "
-    "table Pareto filter must be equal in both directions. Non-trivial: >=12 valid assignments, the exhaustive table kept "
+    "vf/instrument.py). The fronts (compatibility, fused-loop tile shapes, objective and reservation vector) after the "
+    "table Pareto filter must weakly cover each other within rel 1e-5 (a one-ulp float32 difference between equal reservations can keep a redundant row on either side; exact vector equality is therefore not demanded). Non-trivial: >=12 valid assignments, the exhaustive table kept "
     ">=2 Pareto rows, and the pruned enumeration evaluated fewer assignments than exist. Distinct = distinct (spec, template)."
 )
 ASSUMPTIONS = [
@@ -42,6 +42,42 @@ def cases(draw):
     return {"spec": sp, "picks": picks, "threshold": thr}
 
 
+@st.composite
+def spatial_cases(draw):
+    """architectures with a spatial fanout between two memories, loop_bounds and min_usage"""
+    wl = draw(G.workloads(shapes=("matmul", "matmul", "matvec", "chain2"), bound_pool=[2, 4, 4, 6, 8, 8, 12], max_ops=1200))
+    bits = list(wl["bits"].values())[0]
+    sizes = G.tensor_sizes(wl)
+    big, tot = max(sizes.values()), sum(sizes.values())
+    rvs = sorted(wl["bounds"])
+    lbs = []
+    for _ in range(draw(st.integers(0, 2))):
+        op = draw(st.sampled_from(["<=", "<=", "==", ">=", "<", "product<="]))
+        expr = draw(st.sampled_from(rvs)) if "product" not in op else " | ".join(draw(st.lists(st.sampled_from(rvs), min_size=1, max_size=2, unique=True)))
+        lbs.append({"expression": expr, "operator": op, "value": draw(st.sampled_from([1, 2, 2, 3, 4]))})
+    sp_x = {"name": "X", "fanout": draw(st.sampled_from([2, 4, 4])), "loop_bounds": lbs}
+    if draw(st.integers(0, 3)) == 0:
+        sp_x["min_usage"] = draw(st.sampled_from([0.5, 1.0]))
+    glb_vals = draw(st.sampled_from(["inf", tot, max(2, tot // 2), big + 2]))
+    reg_vals = draw(st.sampled_from(["inf", 3, 6, max(3, big // 2)]))
+    fused = len(wl["einsums"]) > 1
+    nodes = [{"type": "Memory", "name": "Main", "size": "inf", "keep": "~Intermediates" if fused else "All", "may_keep": "All",
+              "read": [draw(st.sampled_from([4, 10])), "inf"], "write": [draw(st.sampled_from([4, 10])), "inf"], "leak": 0},
+             {"type": "Memory", "name": "GLB", "size": "inf" if glb_vals == "inf" else glb_vals * bits + bits / 2,
+              "keep": "~Main" if fused else "Nothing", "may_keep": "All", "read": [1, draw(st.sampled_from(["inf", 2]))],
+              "write": [1, draw(st.sampled_from(["inf", 2]))], "leak": 0},
+             {"type": "Container", "name": "PEs", "spatial": [sp_x]},
+             {"type": "Memory", "name": "Reg", "size": "inf" if reg_vals == "inf" else reg_vals * bits + bits / 2,
+              "keep": "Nothing", "may_keep": draw(st.sampled_from(["All", "All", "Outputs", "Inputs"])),
+              "read": [0.5, "inf"], "write": [0.5, "inf"], "leak": 0},
+             {"type": "Compute", "name": "MAC", "compute": [1, 1], "leak": 0}]
+    sp = dict(wl)
+    sp["nodes"] = nodes
+    sp["mapper"] = {"metrics": draw(st.sampled_from(["ENERGY", "LATENCY", "ENERGY|LATENCY"]))}
+    picks = draw(st.lists(st.integers(0, 10_000), min_size=8, max_size=12, unique=True))
+    return {"spec": sp, "picks": picks, "threshold": draw(st.sampled_from([1, 8, 64, 1000])), "spatial": True}
+
+
 def _vectors(groups):
     out = []
     for compat, df in groups:
@@ -55,6 +91,23 @@ def _match(a, b):
     if a[0] != b[0] or a[1] != b[1]:
         return False
     return all(close(x, y, rel=1e-5, abs_=1e-9) for x, y in zip(a[2], b[2]))
+
+
+def _covers(a, b, strict=False):
+    """a weakly dominates b (same group); strict: and is clearly better somewhere"""
+    if a[0] != b[0] or a[1] != b[1]:
+        return False
+    better = False
+    for c, x, y in zip(a[1], a[2], b[2]):
+        if c.startswith("fused_loop<SEP>"):
+            if not close(x, y, rel=1e-6, abs_=1e-9):
+                return False
+        else:
+            if x > y * (1 + 1e-5) + 1e-9:
+                return False
+            if x < y * (1 - 1e-4) - 1e-9:
+                better = True
+    return better if strict else True
 
 
 def check_template(job, idx, thr, col, desc):
@@ -80,13 +133,18 @@ def check_template(job, idx, thr, col, desc):
     labels = [f"thr:{thr}" + ("" if active else ":inactive"), f"symbols:{min(nsym, 4)}",
               "valid>=20" if info.n_valid >= 20 else "valid<20", f"pareto_rows:{min(len(vb), 5)}",
               "some_invalid" if info.n_valid < info.n_all else "all_valid",
-              "empty" if not vb else "nonempty", "has_exact_fit" if info.exact_fit else "no_exact_fit"]
+              "empty" if not vb else "nonempty", "has_exact_fit" if info.exact_fit else "no_exact_fit",
+              "spatial_arch" if desc.get("spatial") else "memory_only_arch",
+              "template_has_spatial_loop" if "S-" in job.mapping.compact_str() else "template_temporal_only"]
     col.case([desc["spec"], job.mapping.compact_str()], nontrivial, labels,
              sample={"template": job.mapping.compact_str(), "metrics": desc["spec"]["mapper"], "bounds": desc["spec"]["bounds"],
                      "n_assignments": info.n_all, "n_valid": info.n_valid, "pareto_rows_exhaustive": len(vb),
                      "pareto_rows_pruned": len(va), "threshold": thr})
-    lost = [v for v in vb if not any(_match(v, w) for w in va)]
-    extra = [v for v in va if not any(_match(v, w) for w in vb)]
+    # Equality of the two fronts up to float32 noise: each front must weakly cover the other (same
+    # compatibility and fused-loop tile shapes, every objective/reservation <= within rel 1e-5).  (Reservation values
+    # of equal fractions can differ by one float32 ulp, which makes exact vector matching unsound.)
+    lost = [v for v in vb if not any(_covers(w, v) for w in va)]
+    extra = [v for v in va if not any(_covers(w, v) for w in vb)]
     if lost or extra:
         kind = "lost-pareto-point" if lost else "extra-point"
         if info.exact_fit:
@@ -146,6 +204,7 @@ def shards(tier, seed):
 
 def run_shard(shard, col):
     drive(cases(), check, n=shard["n"], seed=hash32(shard["seed"], "C08", shard["k"]), col=col)
+    drive(spatial_cases(), check, n=max(1, shard["n"] // 2), seed=hash32(shard["seed"], "C08s", shard["k"]), col=col)
 
 
 def replay(desc, col):
